@@ -13,10 +13,10 @@ pub const GEN_LEN: usize = 4 + 4 + 1;
 /// generate_queries(transcript, N, 2^k): output == sort+dedup of low128(r_i) mod 2^k for the
 /// N challenges r_i drawn in order; in range; strictly increasing; at most N; the transcript
 /// is left exactly N squeezes further.
-pub fn generate<const N: usize>(i: &mut Inp) -> Out {
+pub fn generate<const N: usize, const KMAX: u8>(i: &mut Inp) -> Out {
     let d = i.felt();
     let c = i.felt();
-    let k = i.range_u8(1, 64) as u32;
+    let k = i.range_u8(1, KMAX) as u32;
     // oracle: draw the same challenges from an identical transcript
     let mut o = Transcript::new_with_counter(d, c);
     let mut want: [u64; N] = [0; N];
